@@ -59,11 +59,23 @@ func Make[T any](n ...int) *Chan[T] {
 	return c
 }
 
+// MakeLike creates a channel of the element type of its first argument (make(X, n) for a named
+// channel type X: the rewrite step does not know X's element type, the compiler does).
+func MakeLike[T any](_ *Chan[T], n ...int) *Chan[T] { return Make[T](n...) }
+
 func (c *Chan[T]) sync(s *sched.Sim) {
 	if c.gen != s.Gen {
 		c.gen = s.Gen
 		c.id = s.NewObjID()
 		c.buf = nil
+		// what was sent outside any run (a token put into a buffered channel by a package
+		// initialiser) is in the channel when the run starts
+		for _, v := range c.plain {
+			if len(c.buf) < c.capa {
+				c.buf = append(c.buf, item[T]{v: v})
+			}
+		}
+		c.plain = nil
 		c.hand = nil
 		c.taken = false
 		c.takenVC = nil
